@@ -65,8 +65,8 @@ func cmdCheck(args []string) int {
 	fs.StringVar(&o.tier, "tier", "quick", "quick|thorough")
 	fs.BoolVar(&o.verbose, "v", false, "verbose")
 	fs.StringVar(&o.dump, "dump", "", "directory to dump queries into")
-	fs.IntVar(&o.quickS, "t1", 3, "first-pass solver timeout (s)")
-	fs.IntVar(&o.fullS, "t2", 20, "second-pass solver timeout (s)")
+	fs.IntVar(&o.quickS, "t1", 4, "first-pass solver timeout (s)")
+	fs.IntVar(&o.fullS, "t2", 90, "second-pass solver timeout (s)")
 	fs.IntVar(&o.jobs, "j", 12, "parallel obligations")
 	fs.BoolVar(&o.noReplay, "noreplay", false, "skip replay of counterexamples")
 	fs.IntVar(&o.seed, "seed", 0, "seed (recorded in evidence)")
@@ -74,8 +74,8 @@ func cmdCheck(args []string) int {
 	o.props = splitList(props)
 	o.funcs = splitList(funcs)
 	if o.tier == "thorough" {
-		if o.fullS < 120 {
-			o.fullS = 120
+		if o.fullS < 300 {
+			o.fullS = 300
 		}
 	}
 	return runCheck(&o)
@@ -195,7 +195,7 @@ func runCheck(o *options) int {
 			defer func() { <-sem }()
 			if o.dump != "" {
 				os.MkdirAll(o.dump, 0o755)
-				os.WriteFile(filepath.Join(o.dump, sanitize(ob.ID)+".smt2"), []byte(ob.query(prelude, false, false)), 0o644)
+				os.WriteFile(filepath.Join(o.dump, sanitize(ob.ID)+".smt2"), []byte(ob.query(prelude, os.Getenv("GOVC_NOLAMBDA") != "", false)), 0o644)
 			}
 			// every conjunct of the goal is a query of its own; all must be unsat
 			var total float64
